@@ -9,10 +9,12 @@ import (
 	"os"
 	"strings"
 	"testing"
+	"testing/synctest"
 	"time"
 
 	"github.com/ipni/go-libipni/dagsync"
 
+	"verifharness/fixture"
 	"verifharness/sched"
 	"verifharness/schedfx"
 	"verifharness/syncfx"
@@ -419,6 +421,81 @@ func threeInFlight() *sched.Scenario {
 	}
 }
 
+// N6: two syncs of ONE publisher overlap: an announce-triggered sync of ad 1
+// (reports to the general hook) and an explicit sync to the head, ad 2, with
+// its own scoped hook. Each notification carries the block count of its own
+// sync: the one for ad 1 as many blocks as the general hook was handed, the one
+// for ad 2 as many as the scoped hook was. (How many that is depends on the
+// order; an explicit sync that read its stop point before the other finished
+// legitimately reports both ads: C08's recorded finding, not judged here.)
+func overlappingSyncsOfOnePublisher() *sched.Scenario {
+	name := "N6-overlapping-syncs-of-one-publisher"
+	return &sched.Scenario{Name: name,
+		Setup: func(e *sched.Exec) ([]sched.Thread, func()) {
+			w := schedfx.New(e, schedfx.Options{Pubs: 1, ChainLen: 3, Announce: true, Prestore: true})
+			p, ch := w.Pubs[0], w.Chains[0]
+			p.Publisher.SetRoot(ch.Cids[2])
+			ths := []sched.Thread{
+				{Name: "A", Fn: func() {
+					e.Log("A call Announce")
+					err := w.Sub.Announce(context.Background(), ch.Cids[1], p.AddrInfo())
+					e.Log("A ret Announce err=%v", err != nil)
+				}},
+				{Name: "X", Fn: func() {
+					e.Log("X call sync")
+					_, err := w.Sub.SyncAdChain(context.Background(), p.AddrInfo(), dagsync.ScopedBlockHook(w.Hook("scopedX")))
+					e.Log("X ret sync ok=%v", err == nil)
+				}},
+			}
+			return ths, finish(e, w, nil)
+		},
+		Check: func(e *sched.Exec) []sched.Finding {
+			out := basics(e, name, []string{"A", "X"})
+			f, _ := e.Data.(*final)
+			if f == nil || len(out) > 0 {
+				return out
+			}
+			general, scoped := 0, 0
+			for _, l := range e.Obs() {
+				if strings.HasPrefix(l, "hook general pub0 ") {
+					general++
+				}
+				if strings.HasPrefix(l, "hook scopedX pub0 ") {
+					scoped++
+				}
+			}
+			var c1, c2 = -1, -1
+			for _, ev := range f.setup {
+				var bi, cnt int
+				if k, _ := fmt.Sscanf(ev, "pub0[%d] count=%d", &bi, &cnt); k == 2 && !strings.HasSuffix(ev, " err") {
+					if bi == 1 {
+						c1 = cnt
+					}
+					if bi == 2 {
+						c2 = cnt
+					}
+				}
+			}
+			// a sync that completed and advanced the latest-synced advertisement
+			// covered at least the advertisement it is named after
+			for _, c := range []int{c1, c2} {
+				if c == 0 {
+					out = append(out, sched.Finding{Sig: name + ":successful-sync-reported-with-zero-blocks", Msg: fmt.Sprintf("events %v (general hook handed %d blocks, scoped hook %d)", f.setup, general, scoped)})
+					break
+				}
+			}
+			if c2 >= 0 && c2 != scoped {
+				out = append(out, sched.Finding{Sig: name + ":count-is-not-the-block-count-of-that-sync", Msg: fmt.Sprintf("the notification of the explicit sync (ad 2) says count=%d, its own hook was handed %d blocks (general hook: %d); events %v", c2, scoped, general, f.setup)})
+			}
+			if c1 >= 0 && c1 != general {
+				out = append(out, sched.Finding{Sig: name + ":count-is-not-the-block-count-of-that-sync", Msg: fmt.Sprintf("the notification of the announce-triggered sync (ad 1) says count=%d, the general hook was handed %d blocks (scoped hook: %d); events %v", c1, general, scoped, f.setup)})
+			}
+			e.Class = fmt.Sprintf("events=%v general=%d scoped=%d", f.setup, general, scoped)
+			return out
+		},
+	}
+}
+
 // N4: a sync (explicit or announce-triggered) races with Close. A listener is
 // registered before everything and read only at the end. Whatever the
 // schedule, a sync that updated the latest-synced advertisement has produced
@@ -483,9 +560,90 @@ func syncVsClose(mode string) *sched.Scenario {
 	}
 }
 
+// longStall: one listener that never reads, one that reads, and n sequential
+// syncs of one new advertisement each (no scheduler: one thing happens at a
+// time, quiescence in the bubble decides "returned" and "delivered"). "Never
+// delays" has no bound in it; n is chosen well beyond the sizes buffers tend to
+// have (1, 16, 32, 64, 128).
+func longStall(t *testing.T, r *vp.Recorder, n int) {
+	key := fmt.Sprintf("long-stall|%d", n)
+	if !r.Mine(key) {
+		return
+	}
+	var bad, sig string
+	leak := syncfx.Bubble(t, func(t *testing.T) {
+		w := syncfx.NewWorld()
+		id := fixture.Key("ed25519", 0)
+		p := w.AddPub(id, true)
+		ch := syncfx.BuildAdChain(p.Src, id, n+1, syncfx.DefaultProto, "long")
+		sub := w.NewSubscriber()
+		stalled, reader := w.Listen(), w.Listen()
+		defer func() {
+			if bad != "" {
+				// something is stuck: do not call into the subscriber again
+				if ps := sub.HttpPeerStore(); ps != nil {
+					ps.Close()
+				}
+				w.CloseRest()
+				return
+			}
+			stalled.Stop()
+			reader.Stop()
+			w.Close()
+		}()
+		for h := 1; h <= n; h++ {
+			r.EvalN(key, 1, true)
+			p.Publisher.SetRoot(ch.Cids[h])
+			done := make(chan error, 1)
+			go func() {
+				_, err := sub.SyncAdChain(context.Background(), p.AddrInfo())
+				done <- err
+			}()
+			synctest.Wait()
+			select {
+			case err := <-done:
+				if err != nil {
+					bad, sig = fmt.Sprintf("sync %d failed: %v", h, err), "long-stall:sync-error"
+					return
+				}
+			default:
+				bad, sig = fmt.Sprintf("sync %d does not return while a listener that never reads has %d unread notifications", h, h-1), "long-stall:stalled-listener-delays-syncs"
+				return
+			}
+			evs := reader.Poll()
+			wantCount := 1
+			if h == 1 {
+				wantCount = 2 // nothing was synced before: the first sync covers ads 1 and 0
+			}
+			if len(evs) != 1 || !evs[0].Cid.Equals(ch.Cids[h]) || evs[0].Count != wantCount {
+				bad, sig = fmt.Sprintf("after sync %d the reading listener got %d notifications (%v) while the other listener has %d unread ones", h, len(evs), evs, h), "long-stall:stalled-listener-delays-other-listeners"
+				return
+			}
+		}
+		// the stalled listener finally reads: everything, once, in order
+		evs, closed := stalled.StopCheck()
+		if len(evs) != n || !closed {
+			bad, sig = fmt.Sprintf("the stalled listener finally got %d of %d notifications (channel closed: %v)", len(evs), n, closed), "long-stall:backlog-lost"
+			return
+		}
+		for i, ev := range evs {
+			if !ev.Cid.Equals(ch.Cids[i+1]) {
+				bad, sig = fmt.Sprintf("backlog out of order at position %d", i), "long-stall:backlog-order"
+				return
+			}
+		}
+	})
+	if bad != "" {
+		r.Violation(sig, key, bad, nil)
+	} else if leak != "" {
+		r.Note("long-stall: goroutines left in the bubble: %s", firstLine(leak))
+	}
+	r.Outcome("long-stall-done")
+}
+
 func TestCheck(t *testing.T) {
 	r := vp.New("C14", "model_checking",
-		"scenarios on the real subscriber built with the instrumentation overlay (gated in-memory publishers, chains of 3 signed ads): N1 two publishers synced by two threads with a reading and a never-reading listener; N2 two successive explicit syncs of one publisher while a listener registers and cancels at scheduler-chosen moments and a reader polls (checking the latest-synced value at the moment each event arrives); N3 an announce-triggered sync with a failing block request; N4 an explicit / an announce-triggered sync racing with Close while a listener registered beforehand reads only at the end; N5 explicit syncs of two publishers and a failing announce-triggered sync (three notifications in flight). All interleavings at the scheduling points (locks, atomics, channel operations of OnSyncFinished / cancel / the distributor, selects, spawns, requests, hook calls, observations) up to the preemption bound. states = distinct decision states; transitions = scheduling steps; traces = executions of the real code.",
+		"scenarios on the real subscriber built with the instrumentation overlay (gated in-memory publishers, chains of 3 signed ads): N1 two publishers synced by two threads with a reading and a never-reading listener; N2 two successive explicit syncs of one publisher while a listener registers and cancels at scheduler-chosen moments and a reader polls (checking the latest-synced value at the moment each event arrives); N3 an announce-triggered sync with a failing block request; N4 an explicit / an announce-triggered sync racing with Close while a listener registered beforehand reads only at the end; N5 explicit syncs of two publishers and a failing announce-triggered sync (three notifications in flight); N6 an announce-triggered and an explicit sync (own scoped hook) of one publisher overlapping, each notification's count compared with the hook calls of its own sync. Outside the scheduler: one listener that never reads and one that does, 150 (thorough 600) sequential syncs, each of which must return and reach the reader, and the backlog must arrive complete and in order in the end. All interleavings at the scheduling points (locks, atomics, channel operations of OnSyncFinished / cancel / the distributor, selects, spawns, requests, hook calls, observations) up to the preemption bound. states = distinct decision states; transitions = scheduling steps; traces = executions of the real code.",
 		"cooperative scheduling at synchronization operations; every multi-case select is a priority select whose first-tried case is a scheduler decision (a non-default first case costs one unit of the bound, like a preemption); at most 3 listeners and 2 publishers",
 		"in N1 and N2 the chain blocks are already in the destination store (they are reported but not requested), so each sync makes only the head request",
 		"'registered before the sync finished' is judged by real-time order in the observation log: registration returned before the sync was invoked, cancel invoked after it returned",
@@ -499,7 +657,7 @@ func TestCheck(t *testing.T) {
 	if vp.Thorough() {
 		bound = 3
 	}
-	scs := []*sched.Scenario{syncVsClose("explicit"), syncVsClose("announce"), threeInFlight(), twoPublishers(), registerDuringSyncs(), failingAnnounce()}
+	scs := []*sched.Scenario{syncVsClose("explicit"), syncVsClose("announce"), overlappingSyncsOfOnePublisher(), threeInFlight(), twoPublishers(), registerDuringSyncs(), failingAnnounce()}
 	r.Bounds(map[string]any{"preemption_bound": bound, "scenarios": len(scs)})
 	budget := 0.0
 	if v := os.Getenv("VERIF_BUDGET_S"); v != "" {
@@ -520,6 +678,13 @@ func TestCheck(t *testing.T) {
 		if !r.Replaying() && done < bound {
 			r.NotExhaustive(fmt.Sprintf("%s: time share used up after completing preemption bound %d of %d", sc.Name, done, bound))
 		}
+	}
+	if !r.Replaying() || strings.HasPrefix(r.ReplayKey(), "long-stall|") {
+		n := 150
+		if vp.Thorough() {
+			n = 600
+		}
+		longStall(t, r, n)
 	}
 	t.Logf("violations: %d", r.Violations())
 	_ = dagsync.SyncFinished{}
